@@ -181,11 +181,17 @@ func (e *definedError) DebugStack() string {
 	// hard-coded cause we can't get it in pure Go.
 	buf.WriteString("\n\ngoroutine 1 [running]:")
 
-	for _, pc := range e.stack.StackTrace() {
-		if fn := runtime.FuncForPC(pc); fn != nil {
-			buf.WriteByte('\n')
-			file, line := fn.FileLine(pc)
-			fmt.Fprintf(buf, "%s()\n\t%s:%d +%#x", fn.Name(), file, line, fn.Entry())
+	if pcs := e.stack.StackTrace(); len(pcs) > 0 {
+		frames := runtime.CallersFrames(pcs)
+		for {
+			frame, more := frames.Next()
+			if frame.Function != "" {
+				buf.WriteByte('\n')
+				fmt.Fprintf(buf, "%s()\n\t%s:%d +%#x", frame.Function, frame.File, frame.Line, frame.Entry)
+			}
+			if !more {
+				break
+			}
 		}
 	}
 	return buf.String()
